@@ -16,7 +16,7 @@ func init() {
 		ID:    "C08",
 		Level: "exploration",
 		Rule: "cases: first a sample of the repository's own manifest directories (3 repetitions x all outputs + the binary), then one generated resource set per case (NetworkPolicy worlds with many shared selectors, ANP/BANP worlds, Ingress/Route worlds, a large profile with up to 14 workloads and 10 policies) written in V layout variants (canonical file; documents shuffled into one file; one file per document with random names; random nested grouping; NetworkPolicy rules and peers permuted) and analysed R times per variant in fresh analyzers, for list txt/json/csv/md/dot x exposure off/on and diff txt/csv/md/dot against a second world; a slice is also run through the binary (fresh process, fresh hash seed); " +
-			"plus a light stream of many more resource sets (list txt, and with exposure txt/json and one of dot/md/csv in rotation, two layouts, three fresh analyses each; 30% with an isolated namespace whose connection-less workloads and representative peers must be grouped the same way every time); oracle: byte equality of every output with the first one of its kind; the number of distinct internal iteration orders actually seen (order of the returned []Peer slice) is measured per input; " +
+			"plus a light stream of many more resource sets (list txt, and with exposure txt/json and one of dot/md/csv in rotation, two layouts - in every other case the second one with rules and peers permuted -, three fresh analyses each; 30% with an isolated namespace whose connection-less workloads and representative peers must be grouped the same way every time); oracle: byte equality of every output with the first one of its kind; the number of distinct internal iteration orders actually seen (order of the returned []Peer slice) is measured per input; " +
 			"non-trivial = at least 3 workload peers and a non-empty report (the number of inputs for which more than one internal iteration order was actually observed is reported as an event, not demanded: an implementation that sorts its peers has only one); distinct = world hash",
 		Assumptions:       []string{"values inside one selector and ports inside one rule are not permuted (the statement names documents, files, rules and peers)", "each semantic selector has one spelling per world except in the committed witness of finding C08-selector-spelling"},
 		NumCases:          func(tier string, _ int64) int { return tierN(tier, 76+1500, 470+30000) },
@@ -361,7 +361,12 @@ func runC08Light(c *run.Ctx) {
 	r.Hash = "light/" + w.Hash()
 	r.Ev("light_inputs", 1)
 	dirs := []string{c.Dir("canonical"), c.Dir("perdoc")}
-	if w.Write(dirs[0], nil) != nil || world.WriteDocs(dirs[1], w.Docs(), world.LayoutPerDoc, c.R("layout")) != nil {
+	w2 := w
+	if c.Idx%2 == 1 { // every other case: the second copy also has its NetworkPolicy rules and the peers inside each rule permuted
+		w2 = world.PermuteUnordered(c.R("permute"), w)
+		r.Feat("light_rules_and_peers_permuted")
+	}
+	if w.Write(dirs[0], nil) != nil || world.WriteDocs(dirs[1], w2.Docs(), world.LayoutPerDoc, c.R("layout")) != nil {
 		r.Discarded = "emit"
 		return
 	}
